@@ -581,6 +581,14 @@ def oracle_c12(cid, impl, m):
     return True
 
 
+def oracle_c06_engine(cid, impl, m):
+    """Checks in network A while network B (same database) holds the queried tuple itself
+    and direct memberships for every subject set of A: the answer must be the one the
+    model computes from A's tuples alone (the correspondence), and equal the reference
+    semantics on A when limits are not binding."""
+    return oracle_c01(cid, impl, m)
+
+
 ENGINE_RULE = ("configs from an OPL-shaped grammar (1-4 namespaces, related relations with plain and SubjectSet types, "
                "permissions over includes/permits/traverse/!/&&/||, rendered to OPL and loaded through the real parser, "
                "or legacy namespaces without relations), 0-54 tuples biased to declared relations, chains, cycles, duplicates; "
@@ -634,7 +642,7 @@ PROPS = {
     "C06": {
         "lean_module": ["Keto.Props.C06", "Keto.Proofs.FactsTie"],
         "theorems": ["Keto.FactsTie.sqlNid_tie", "Keto.Store.C06_frame", "Keto.Store.C06_frame_single", "Keto.Store.C06_no_leak", "Keto.Store.C06_sql_nid"],
-        "streams": [{"name": "store-nets", "n": {"quick": 300, "thorough": 3000}, "oracle": oracle_c06, "thorough_seeds": 3}],
+        "streams": [{"name": "engine-c06", "n": {"quick": 120, "thorough": 1200}, "oracle": oracle_c06_engine, "thorough_seeds": 2}, {"name": "store-nets", "n": {"quick": 300, "thorough": 3000}, "oracle": oracle_c06, "thorough_seeds": 3}],
         "rule": STORE_RULE + "; 2-3 networks (Persisters with different network ids, handlers built on each) over ONE database run "
                 "interleaved histories with the same strings, tuples and queries, including delete-by-empty-query; f<i> compares the "
                 "rows (shard ids included) of all other networks before/after every item",
